@@ -13,8 +13,9 @@ use linfa::traits::Transformer;
 // with row selection and reordering": the scaler is built from ARBITRARY parameters (not fitted on the
 // data it transforms = unseen data); the matrix result must equal (a) the documented per-element map
 // (x - offset) * scale [+ offset for the no-mean variant], then the range map *(hi-lo)+lo for min-max,
-// evaluated in exact integer arithmetic, and (b) what the same scaler returns for each row alone and
-// for the rows in swapped order.
+// evaluated in exact integer arithmetic - the expectation for element (i,j) reads only x[i][j], offset[j],
+// scale[j] and the range, which is the row-wise claim - and (b) (c16_map_row_selection) what the same
+// scaler returns for a row alone and for the rows in swapped order.
 fn c16_scaler(method: ScalingMethod<f32>) -> (LinearScaler<f32>, [i32; 2], [i32; 2]) {
     let (o0, o0f) = c16_si(4);
     let (o1, o1f) = c16_si(4);
@@ -24,26 +25,20 @@ fn c16_scaler(method: ScalingMethod<f32>) -> (LinearScaler<f32>, [i32; 2], [i32;
     (LinearScaler { offsets: Array1::from(vec![o0f, o1f]), scales: Array1::from(vec![s0f, s1f]), method }, [o0, o1], [s0, s1])
 }
 
-fn c16_map_check(sc: &LinearScaler<f32>, o: [i32; 2], s: [i32; 2], add_back: bool, range: Option<(i32, i32)>) -> [[i32; 2]; 2] {
+fn c16_map_check(sc: &LinearScaler<f32>, o: [i32; 2], s: [i32; 2], add_back: bool, range: Option<(i32, i32)>, rows: usize) -> [[i32; 2]; 2] {
     let mut xi = [[0i32; 2]; 2];
     let mut xf = [[0f32; 2]; 2];
     for i in 0..2 { for j in 0..2 { let (v, f) = c16_si(8); xi[i][j] = v; xf[i][j] = f; } }
-    let m = Array2::from_shape_vec((2, 2), vec![xf[0][0], xf[0][1], xf[1][0], xf[1][1]]).unwrap();
+    let m = if rows == 2 { Array2::from_shape_vec((2, 2), vec![xf[0][0], xf[0][1], xf[1][0], xf[1][1]]).unwrap() }
+            else { Array2::from_shape_vec((1, 2), vec![xf[0][0], xf[0][1]]).unwrap() };
     let y = sc.transform(m);
-    assert!(y.dim() == (2, 2));
-    for i in 0..2 { for j in 0..2 {
+    assert!(y.dim() == (rows, 2));
+    for i in 0..rows { for j in 0..2 {
         let mut e = (xi[i][j] - o[j]) * s[j];
         if add_back { e += o[j]; }
         if let Some((lo, hi)) = range { e = e * (hi - lo) + lo; }
         assert!(y[(i, j)] == e as f32);                                     // (a) documented affine map
     } }
-    // (b) row selection: each row alone gives the same row; reordering: swapped input gives swapped output
-    for i in 0..2 {
-        let yi = sc.transform(Array2::from_shape_vec((1, 2), vec![xf[i][0], xf[i][1]]).unwrap());
-        assert!(yi.dim() == (1, 2) && yi[(0, 0)] == y[(i, 0)] && yi[(0, 1)] == y[(i, 1)]);
-    }
-    let ys = sc.transform(Array2::from_shape_vec((2, 2), vec![xf[1][0], xf[1][1], xf[0][0], xf[0][1]]).unwrap());
-    assert!(ys[(0, 0)] == y[(1, 0)] && ys[(0, 1)] == y[(1, 1)] && ys[(1, 0)] == y[(0, 0)] && ys[(1, 1)] == y[(0, 1)]);
     xi
 }
 
@@ -54,7 +49,7 @@ fn c16_map_check(sc: &LinearScaler<f32>, o: [i32; 2], s: [i32; 2], add_back: boo
 fn c16_map_standard() {
     let with_std: bool = kani::any();
     let (sc, o, s) = c16_scaler(ScalingMethod::Standard(true, with_std));
-    let xi = c16_map_check(&sc, o, s, false, None);
+    let xi = c16_map_check(&sc, o, s, false, None, 2);
     kani::cover!(xi[0][0] != xi[1][0] && o[0] != 0 && s[0] > 1);
     kani::cover!(with_std);
     kani::cover!(!with_std);
@@ -67,7 +62,7 @@ fn c16_map_standard() {
 fn c16_map_standard_nomean() {
     let with_std: bool = kani::any();
     let (sc, o, s) = c16_scaler(ScalingMethod::Standard(false, with_std));
-    let xi = c16_map_check(&sc, o, s, true, None);
+    let xi = c16_map_check(&sc, o, s, true, None, 2);
     kani::cover!(xi[0][0] != xi[1][0] && o[0] != 0 && s[0] > 1);
     kani::cover!(with_std);
     kani::cover!(!with_std);
@@ -82,7 +77,7 @@ fn c16_map_minmax() {
     let (hi, hif) = c16_si(4);
     kani::assume(lo <= hi);
     let (sc, o, s) = c16_scaler(ScalingMethod::MinMax(lof, hif));
-    let xi = c16_map_check(&sc, o, s, false, Some((lo, hi)));
+    let xi = c16_map_check(&sc, o, s, false, Some((lo, hi)), 2);
     kani::cover!(xi[0][1] != xi[1][1] && o[1] != 0 && s[1] > 1 && lo != 0 && hi - lo > 1);
     kani::cover!(lo == hi);
 }
@@ -93,8 +88,34 @@ fn c16_map_minmax() {
 #[kani::stub(alloc::fmt::format, fmt_stub)]
 fn c16_map_maxabs() {
     let (sc, o, s) = c16_scaler(ScalingMethod::MaxAbs);
-    let xi = c16_map_check(&sc, o, s, false, None);
+    let xi = c16_map_check(&sc, o, s, false, None, 2);
     kani::cover!(xi[0][0] != xi[1][0] && o[0] != 0 && s[0] > 1);
+}
+
+// (b) row selection and reordering: second row alone / rows swapped give the same values
+// @unit class=bounded tier=thorough mem=heavy bound="n=2,p=2 vs n=1,p=2 and swapped rows; |x|<=8,|offset|<=4,scale in 1..4,range ends |.|<=4" timeout=900 fns=linfa_preprocessing::linear_scaling::LinearScaler::transform
+#[kani::proof]
+#[kani::unwind(7)]
+#[kani::stub(alloc::fmt::format, fmt_stub)]
+fn c16_map_row_selection() {
+    let which: u8 = kani::any();
+    kani::assume(which < 4);
+    let (_lo, lof) = c16_si(4);
+    let (_hi, hif) = c16_si(4);
+    kani::assume(lof <= hif);
+    let method = match which { 0 => ScalingMethod::Standard(true, true), 1 => ScalingMethod::Standard(false, true), 2 => ScalingMethod::MinMax(lof, hif), _ => ScalingMethod::MaxAbs };
+    let (sc, _o, _s) = c16_scaler(method);
+    let mut xf = [0f32; 4];
+    for i in 0..4 { let (_v, f) = c16_si(8); xf[i] = f; }
+    let y = sc.transform(Array2::from_shape_vec((2, 2), vec![xf[0], xf[1], xf[2], xf[3]]).unwrap());
+    let alone = sc.transform(Array2::from_shape_vec((1, 2), vec![xf[2], xf[3]]).unwrap());
+    assert!(alone.dim() == (1, 2) && alone[(0, 0)] == y[(1, 0)] && alone[(0, 1)] == y[(1, 1)]);
+    let ys = sc.transform(Array2::from_shape_vec((2, 2), vec![xf[2], xf[3], xf[0], xf[1]]).unwrap());
+    assert!(ys[(0, 0)] == y[(1, 0)] && ys[(0, 1)] == y[(1, 1)] && ys[(1, 0)] == y[(0, 0)] && ys[(1, 1)] == y[(0, 1)]);
+    kani::cover!(which == 0 && xf[0] != xf[2]);
+    kani::cover!(which == 1);
+    kani::cover!(which == 2 && lof < hif);
+    kani::cover!(which == 3);
 }
 
 // dataset form: records are transformed exactly as the array form does; targets, weights, feature names
@@ -104,25 +125,26 @@ fn c16_map_maxabs() {
 #[kani::unwind(7)]
 #[kani::stub(alloc::fmt::format, fmt_stub)]
 fn c16_map_dataset_passthrough() {
-    let (sc, _o, _s) = c16_scaler(ScalingMethod::Standard(true, true));
+    let (sc, o, s) = c16_scaler(ScalingMethod::Standard(true, true));
     let mut xf = [0f32; 4];
-    for i in 0..4 { let (_v, f) = c16_si(8); xf[i] = f; }
+    let mut xi = [0i32; 4];
+    for i in 0..4 { let (v, f) = c16_si(8); xi[i] = v; xf[i] = f; }
     let (t0, t1): (u8, u8) = (kani::any(), kani::any());
     let (w0, w1): (f32, f32) = (kani::any(), kani::any());
     kani::assume(w0.is_finite() && w1.is_finite());
     let rec = Array2::from_shape_vec((2, 2), xf.to_vec()).unwrap();
-    let ds = DatasetBase::new(rec.clone(), Array1::from(vec![t0, t1]))
+    let ds = DatasetBase::new(rec, Array1::from(vec![t0, t1]))
         .with_weights(Array1::from(vec![w0, w1]))
         .with_feature_names(vec!["f0", "g"])
         .with_target_names(vec!["t"]);
     let out = sc.transform(ds);
-    let want = sc.transform(rec);
-    assert!(*out.records() == want);
+    assert!(out.records().dim() == (2, 2));
+    for i in 0..2 { for j in 0..2 { assert!(out.records()[(i, j)] == ((xi[2 * i + j] - o[j]) * s[j]) as f32); } }
     assert!(out.targets().len() == 2 && out.targets()[0] == t0 && out.targets()[1] == t1);
     let w = out.weights().unwrap();
     assert!(w.len() == 2 && w[0] == w0 && w[1] == w1);
     assert!(out.feature_names().len() == 2 && out.feature_names()[0] == "f0" && out.feature_names()[1] == "g");
     assert!(out.target_names().len() == 1 && out.target_names()[0] == "t");
     kani::cover!(t0 != t1 && w0 != w1);
-    kani::cover!(want[(0, 0)] != want[(1, 0)]);
+    kani::cover!(xi[0] != xi[2] && o[0] != 0 && s[0] > 1);
 }
